@@ -30,6 +30,10 @@ var c10Atoms = append(append([]ora.Atom{}, c09Atoms...),
 	ora.Atom{Name: "PGR", Gen: func(t *ora.Tok) string {
 		return "<div class=\"pagination\"><a href=\"/fetched/page-1.html\">1</a> 2 <a href=\"/fetched/page-3.html\">3</a> <a href=\"/fetched/page-3.html\">Next</a></div>"
 	}},
+	// page numbers with non-breaking spaces and a label around them (text that pagination code reads)
+	ora.Atom{Name: "PGRn", Gen: func(t *ora.Tok) string {
+		return "<div class=\"pager\">Page:\u00a01\u00a0<a href=\"/fetched/page-2.html\">2</a>\u00a0of\u00a03 <a href=\"/fetched/page-3.html\">3</a> \u00a0next\u00a0page\u00a0</div>"
+	}},
 	ora.Atom{Name: "QREF", Gen: func(t *ora.Tok) string {
 		return "<p>" + t.W(14) + " <a href=\"?x=" + t.U() + "\">" + t.W(2) + "</a> <a href=\"//cdn.example.net/" + t.U() + "\">" + t.W(1) + "</a> " + t.W(6) + "</p><img src=\"?img=" + t.U() + "\" width=\"400\" height=\"300\"><div class=\"pagination\"><a href=\"?page=1\">1</a> 2 <a href=\"?page=3\">3</a></div>"
 	}},
@@ -41,7 +45,7 @@ var c10Atoms = append(append([]ora.Atom{}, c09Atoms...),
 	}},
 )
 
-var c10Alphabet = []string{"FONT", "JS1", "NOS", "PIC", "PICf", "LAZY", "LAZYs", "YT", "TW", "VIDs", "TBLd", "TBLi", "ATTRS", "FIGl", "IMGrel", "PGR", "SCH", "HIDs", "BR", "QREF", "BYL"}
+var c10Alphabet = []string{"FONT", "JS1", "NOS", "PIC", "PICf", "LAZY", "LAZYs", "YT", "TW", "VIDs", "TBLd", "TBLi", "ATTRS", "FIGl", "IMGrel", "PGR", "SCH", "HIDs", "BR", "QREF", "BYL", "PGRn"}
 
 const c10Fetch = "http://example.com/fetched/page-2.html"
 
@@ -289,7 +293,7 @@ func init() {
 	eng.Register(&eng.Prop{
 		ID:        "C10",
 		DesignRef: "§5 C10",
-		Rule: "documents = S1 with <= 1 (quick) / <= 2 (thorough) insertions over 21 atoms in which the library rewrites nodes (font, javascript: anchor, noscript image, picture, lazy images (with and without a placeholder src that gets overwritten), embeds, video, tables, attribute-laden elements, relative links, pager, schema.org item); x options {nil, URL, URL+PageNumber, all log flags, URL with userinfo/escaped path + SkipPagination, non-nil options without URL (plain and with flags), URLs with trailing slash, escaped path and fragment under each pagination algorithm, URLs without a path} x every history of <= 3 calls over entry points {Apply(document), Apply(attached sub-element), ApplyForURL via an in-process RoundTripper, Apply(document node with several element children)} reusing one tree and one *Options." + crossRule + " (there: history Apply(document), Apply(sub-element), Apply(document) under the page URL and algorithm of the source check) " +
+		Rule: "documents = S1 with <= 1 (quick) / <= 2 (thorough) insertions over 22 atoms in which the library rewrites nodes (font, javascript: anchor, noscript image, picture, lazy images (with and without a placeholder src that gets overwritten), embeds, video, tables, attribute-laden elements, relative links, pager, schema.org item); x options {nil, URL, URL+PageNumber, all log flags, URL with userinfo/escaped path + SkipPagination, non-nil options without URL (plain and with flags), URLs with trailing slash, escaped path and fragment under each pagination algorithm, URLs without a path} x every history of <= 3 calls over entry points {Apply(document), Apply(attached sub-element), ApplyForURL via an in-process RoundTripper, Apply(document node with several element children)} reusing one tree and one *Options." + crossRule + " (there: history Apply(document), Apply(sub-element), Apply(document) under the page URL and algorithm of the source check) " +
 			"Oracle after every call: structural snapshot of the whole tree (types, names, atoms, attributes, parent/child/sibling links) unchanged; no hooked write (field assignment or DOM mutator) touched a caller-owned node; Options and *OriginalURL unchanged (including the pointer); repeated calls give the same result; ApplyForURL reports the fetched address. Non-trivial = history of >= 2 calls or non-nil options.",
 		Enumerate: c10Enumerate,
 		Check:     c10Check,
